@@ -1388,5 +1388,83 @@ func (c *Ctx) checkLoopFormulas() {
 			c.violate("formula/window", sp.Site, short(msg, 140), pos, "the window formula is not the documented one ("+sp.Doc+"): "+msg)
 		}
 	}
-	run.Floor("window_formulas", 2)
+	c.windowExtremes()
+	run.Floor("window_formulas", 4)
+}
+
+// windowExtremes: MovingMax/MovingMin keep the window in a search tree. Per element the closure
+// must insert the new value once, remove only the value that left the window (the second
+// parameter), and return the tree's maximum resp. minimum. That the tree's Max/Min/Remove are
+// right is C17's subject; which of them is called with what is decided here.
+func (c *Ctx) windowExtremes() {
+	run := c.Run
+	for _, w := range []struct{ typ, ret string }{{"MovingMax", "Bst.Max"}, {"MovingMin", "Bst.Min"}} {
+		fi := c.fn("trend", w.typ, "Compute")
+		if fi == nil {
+			continue
+		}
+		site := "trend.(*" + w.typ + ").Compute"
+		lit := closureArg(fi.Pkg.TypesInfo, fi.Decl, "Operate")
+		if lit == nil {
+			c.violate("formula/window", site, "not found", fi.Decl.Pos(), "the window closure was not found (undecided, fails closed)")
+			continue
+		}
+		m := dtab.FromFuncLit(fi.Pkg.TypesInfo, lit)
+		run.Count("window_formulas", 1)
+		msg := ""
+		if len(m.Unsupported) > 0 || len(m.Params) != 2 {
+			msg = fmt.Sprintf("the window closure is not a loop-free function of (new value, value leaving the window): %v %v", m.Params, m.Unsupported)
+		}
+		removes := 0
+		for _, p := range m.Paths {
+			if msg != "" {
+				break
+			}
+			ins, rem := 0, 0
+			for _, ef := range p.Effects {
+				switch {
+				case strings.Contains(ef, ".Insert("):
+					ins++
+					if !strings.HasSuffix(ef, ".Insert("+m.Params[0]+")") {
+						msg = "inserts " + ef + ", not the new value"
+					}
+				case strings.Contains(ef, ".Remove("):
+					rem++
+					if !strings.HasSuffix(ef, ".Remove("+m.Params[1]+")") {
+						msg = "removes " + ef + ", not the value that left the window"
+					}
+				}
+			}
+			if ins != 1 && msg == "" {
+				msg = fmt.Sprintf("inserts the new value %d times on one path", ins)
+			}
+			if rem > 1 && msg == "" {
+				msg = "removes more than one value per step"
+			}
+			removes += rem
+			if msg == "" {
+				call, ok := sym.Expr(nil), false
+				if len(p.Ret) == 1 {
+					call = p.Ret[0]
+					if cl, isCall := call.(sym.Call); isCall && cl.Fn == w.ret && len(cl.Args) == 0 {
+						ok = true
+					}
+				}
+				if !ok {
+					got := "nothing"
+					if call != nil {
+						got = sym.CanonString(call)
+					}
+					msg = "returns " + got + ", not " + w.ret + "()"
+				}
+			}
+		}
+		if msg == "" && removes == 0 {
+			msg = "never removes the value that left the window"
+		}
+		run.Oblige(msg == "")
+		if msg != "" {
+			c.violate("formula/window", site, short(msg, 120), lit.Pos(), "the sliding-window "+strings.TrimPrefix(w.ret, "Bst.")+" is not maintained as documented: the closure "+msg)
+		}
+	}
 }
